@@ -30,6 +30,13 @@ def obligations(tier):
             obs.append(Ob(f"C18.trunc.n{n}.L{L}", "X", "read_metadata on a file of any size < 720+n*L raises or returns < n records; at most one request after the first short one",
                           FUNCS_IO, bounds=f"forall 12<=H<{L}, 0<=size<720+{n}*{L}; n={n}, rpc in 1..{n + 2}", harness="harness/h_image.py", func="trunc_ok",
                           params={"n": n, "rpcs": list(range(1, n + 3)), "L": L}, timeout=600))
+    for L in ([16] if q else [16, 13]):
+        for n in range(1, (3 if q else 5) + 1):
+            obs.append(Ob(f"C18.open.n{n}.L{L}", "X", "open_image on a file cut anywhere after the descriptor raises, or returns a group whose image variable keeps the "
+                          "header-declared line count while every per-line variable is shorter (which the Dataset constructor rejects): never a consistent smaller tree",
+                          FUNCS_IO + ["ceos_alos2.sar_image:open_image", "ceos_alos2.sar_image.metadata:transform_metadata", "ceos_alos2.sar_image.metadata:extract_shape"],
+                          bounds=f"forall 12<=H<{L}, 720<=size<720+{n}*{L}, pixels>=1; n={n}, rpc in 1..{n + 2}", harness="harness/h_image.py", func="trunc_open_ok",
+                          params={"n": n, "rpcs": list(range(1, n + 3)), "L": L}, timeout=600))
     obs += [
         Ob("C18.missing", "X", "open_summary / open_volume_directory / open_sar_leader on a store without the file raise OSError, for every file name",
            ["ceos_alos2.summary:open_summary", "ceos_alos2.volume_directory.io:open_volume_directory", "ceos_alos2.sar_leader.io:open_sar_leader"],
